@@ -32,9 +32,14 @@ func (f *File) Sync() error {
 	if err := f.File.Sync(); err != nil {
 		return err
 	}
-	new := atomic.SwapUint32(&f.new, 1)
-	if new == 0 {
-		return syncDir(f.dir)
+	// Only stop treating the file as new once the parent dir fsync has
+	// succeeded. If it fails the caller may retry and the dir must still be
+	// fsynced before anything written to this file is acknowledged.
+	if atomic.LoadUint32(&f.new) == 0 {
+		if err := syncDir(f.dir); err != nil {
+			return err
+		}
+		atomic.StoreUint32(&f.new, 1)
 	}
 	return nil
 }
